@@ -280,7 +280,15 @@ func symbolCase(l *mc.Local, rd gozxing.Reader, c *fcase) {
 	o := read(rd, c.Reader, draw(c), c.Scale, c.Path)
 	bad := badKey[c.Kind]
 	if c.Orig != "" { // substitution in a Code 128 / 93 / 39 symbol
-		if n := len(c.Vals); c.Kind == "code128" && n >= 3 && ref.Code128Check(c.Vals[:n-1]) == c.Vals[n-1] {
+		startInside := false
+		if c.Kind == "code128" {
+			for _, v := range c.Vals[1:] {
+				if v >= ref.C128StartA && v <= ref.C128StartC {
+					startInside = true // the start characters are congruent to 0, 1, 2 modulo 103: only the structure rule rejects them
+				}
+			}
+		}
+		if n := len(c.Vals); c.Kind == "code128" && n >= 3 && !startInside && ref.Code128Check(c.Vals[:n-1]) == c.Vals[n-1] {
 			// the substituted character carries a weight that is a multiple of 103 (symbols of more than 103
 			// characters): the check character still verifies, so no reader can tell - outside the property
 			l.Count("evaluations", 1)
@@ -661,6 +669,28 @@ func c128Symbols() []vsym {
 			if !seen[k] {
 				seen[k] = true
 				out = append(out, vsym{text, v})
+			}
+		}
+	}
+	// code set C with the digit pairs 00, 01, 02 (values 0, 1, 2): the three start characters 103, 104,
+	// 105 are congruent to them modulo 103, so replacing one by the other leaves the check character
+	// valid at EVERY position - only the rule "no start character inside a symbol" rejects it. In
+	// sets A and B the values 0, 1, 2 are space, ! and ".
+	for _, text := range []string{"00", "01", "02", "0001", "0102", "0200", "120034", "120134", "120234", "001234", "123400", "000102", "010101", "990200", " !\"", "A !\"B", "a\"! b"} {
+		plans := []string{strings.Repeat("B", len(text))}
+		if p, err := ref.Code128AutoSets(text); err == nil {
+			plans = append(plans, p)
+		}
+		if len(text)%2 == 0 && strings.Trim(text, "0123456789") == "" {
+			plans = append(plans, strings.Repeat("C", len(text)))
+		}
+		for _, p := range plans {
+			if v, err := ref.Code128Plan(text, p); err == nil {
+				v = append(v, ref.Code128Check(v))
+				if k := fmt.Sprint(v); !seen[k] {
+					seen[k] = true
+					out = append(out, vsym{text, v})
+				}
 			}
 		}
 	}
